@@ -124,6 +124,9 @@ def eval_twin(case):
     except BuilderInvalid:
         o.skipped = 'builder_invalid'
         return o
+    if case.get('raw') is not None:
+        # base text stored as it is (assign_str does not parse): escape sequences in it are ordinary characters
+        base.assign_str(case['raw'])
     S = base
     s = AnsiStr(base)
     compare(o, S, s, 'initial')
@@ -300,9 +303,21 @@ def strat_twin_focus():
     return st.fixed_dictionaries({'p': gen.prog(cfg)})
 
 
+def strat_twin_raw():
+    import copy
+    cfg = copy.copy(CFG)
+    cfg.ops = ['clear', 'clear', 'simplify', 'slice', 'clip', 'split', 'rsplit', 'splitlines', 'partition', 'replace', 'replace', 'strip', 'case',
+               'ljust', 'center', 'add', 'join', 'apply', 'remove', 'fmtmatch', 'unfmtmatch', 'index', 'expandtabs', 'rmprefix', 'rmsuffix']
+    cfg.max_ops = 3
+    raw = st.lists(st.sampled_from(['a', 'b', ' ', '\x1b[1m', '\x1b[31m', '\x1b[m', '\x1b[2K', '\x1b', '[', 'm', '\n']), min_size=1, max_size=8).map(''.join)
+    return st.fixed_dictionaries({'p': gen.prog(cfg), 'raw': raw})
+
+
 SUBS = [
     Sub('twin_focus', eval_twin, strategy=strat_twin_focus, quick=400, thorough=6000,
         rule='twin mode on two-letter texts with position-dependent formatting, replace-heavy'),
+    Sub('twin_raw_text', eval_twin, strategy=strat_twin_raw, quick=250, thorough=4000,
+        rule='twin mode on values whose base text contains escape sequences (stored with assign_str), every shared method'),
     Sub('ctor', eval_ctor, strategy=strat_ctor, quick=500, thorough=8000),
     Sub('twin', eval_twin, strategy=strat_twin, quick=500, thorough=8000),
 ]
